@@ -512,6 +512,13 @@ def _cell_numbers(pref, n_leaves):
     return (1.0 + pref) / (n_leaves + 1.0), 0.1 * (pref + 1)      # probability, correlation
 
 
+def _level_corr(pref, k):
+    """average correlation the stubbed election reports for a cell at level index k: exactly 0.0 at
+    k = pref + 1 (a legitimate value - a cell constant over a node's markers - that must not be
+    mistaken for 'no value'), negative below"""
+    return 0.1 * (pref + 1) - 0.1 * k
+
+
 def _run_with_stub(tree, prefs, n_assignments):
     import warnings
     import numpy as np
@@ -532,7 +539,7 @@ def _run_with_stub(tree, prefs, n_assignments):
         for row in full_query_gene_data.data:
             pref = int(row[0])
             prob, corr = _cell_numbers(pref, len(leaves))
-            corr += 0.01 * H.index(child_level)               # level dependent, see _expected_corr
+            corr = _level_corr(pref, H.index(child_level))    # level dependent, see _expected_corr
             win = _leaf_ancestors(tree, leaves[pref])[child_level]
             assert win in children, "stub called for a parent that is not an ancestor of the cell's leaf"
             others = [ch for ch in children if ch != win]
@@ -589,13 +596,12 @@ def _expected_corr(tree, pref, k):
     """avg_correlation expected at level k: own value if a choice was made there, else that of
     the nearest level above with a choice, else (levels above the first choice) of the nearest below"""
     H = tree['hierarchy']
-    corr = _cell_numbers(pref, len(tree[H[-1]]))[1]
     above = [j for j in range(k, -1, -1) if _has_choice(tree, pref, j)]
     below = [j for j in range(k + 1, len(H)) if _has_choice(tree, pref, j)]
     if above:
-        return corr + 0.01 * above[0]
+        return _level_corr(pref, above[0])
     if below:
-        return corr + 0.01 * below[0]
+        return _level_corr(pref, below[0])
     return None
 
 
@@ -612,7 +618,7 @@ RTA_ENV = dict(expected=_expected, has_choice=_has_choice, expected_corr=_expect
 
 contract(
     M + 'run_type_assignment#bounded',
-    properties=['C01', 'C03', 'C06'], mode='bounded',
+    properties=['C01', 'C02', 'C03', 'C06'], mode='bounded',
     native=dict(call=_run_with_stub, enumerate=_enum_rta, gen=_gen_rta, env=RTA_ENV, max_enumerated=400000,
                 bound='exhaustive: every taxonomy with <= 3 levels and <= 4 leaves x <= 3 cells '
                       '(every preferred leaf) x n_assignments in {1,3}; election stubbed per cell'),
